@@ -13,9 +13,15 @@ def run(tier, seed):
         groups += [rest[i::3] for i in range(3)]
     assert sorted(n for g in groups for n in g) == sorted(C20_NATIVES)
     tasks = [('lib.native', 'run_natives', ('contracts.finfields', g, tier)) for g in groups]
+    from contracts import finfields_a as FA
+    ops = [k for k in FA.BY_NAME if not k.startswith(('_sqrt', 'signed_', 'unsigned_'))]
+    tasks += [('vc.tasks', 'run_contract', ('contracts.finfields_a', 'c_' + k, 'contracts.finfields:' + ('inplace_prime' if k.startswith('__i') and k[3] != 'n' else 'binop_prime'), tier)) for k in ops]
     obs = run_tasks(tasks)
     return finish('C20', tier, seed, obs, 'other', t0,
-                  explanation='bounded exhaustive contract evaluation on the real classes made by finfields.GF: for every field in the stated bound and every '
+                  explanation='PRIME FIELDS, all primes p and all elements: engine A (deductive, strength P) verifies the real __init__, __add__/__radd__/__iadd__, '
+                              '__sub__/__rsub__/__isub__, __mul__/__rmul__/__imul__, __neg__, __pos__, __truediv__/__itruediv__, __lshift__/__ilshift__, __rshift__/__irshift__, '
+                              '__eq__ for the operand cases same-field / int / foreign against result.value == (a op b) mod p, reducedness, in-place identity (returns self), '
+                              'operands unchanged, NotImplemented for foreign operands, division via the inverse contract of gmpy.invert. ALL FIELD KINDS: bounded exhaustive contract evaluation on the real classes made by finfields.GF: for every field in the stated bound and every '
                               'element pair / (element, int) / (element, polynomial) / (element, exponent) / (element, shift count) / triple in the stated domain '
                               'the real operator (binary, reflected, in-place, unary, **, <<, >>, ==, hash, bool, reciprocal, constructor) is executed and its result '
                               '(read from the result object, incl. the reducedness of its value) is compared with table arithmetic written for the check: integers mod p, '
